@@ -85,8 +85,10 @@ Definition type_max (d : dtype) : Z :=
 (* 3. LUT objects (content.py LUT)                                     *)
 (* ------------------------------------------------------------------ *)
 (* a LUT dataset: descriptor (n, first, bits) and the LUTData bytes *)
+(* [ld_scalar]: LUTData came back from a file as a bare python int (pydicom resolves the
+   LUTData of a ONE-entry table to VR US, VM 1) *)
 Record lutds := LutDS { ld_n : Z; ld_first : Z; ld_bits : Z; ld_bytes : list Z;
-                        ld_expl : option string }.
+                        ld_expl : option string; ld_scalar : bool }.
 
 Definition enc16 (l : list Z) : list Z := flat_map (fun v => [v mod 256; v / 256]) l.
 Fixpoint dec16 (l : list Z) : list Z :=
@@ -96,7 +98,10 @@ Fixpoint dec16 (l : list Z) : list Z :=
   end.
 
 (* LUT.__init__ : accepted iff 0 <= first < 2^16, 1 <= len <= 2^16, dtype u8/u16.
-   [pad] = the dataset went through a file: odd-length OW values get one zero byte *)
+   8-bit tables with an odd number of entries are stored with one zero pad byte (LUTData is OW:
+   even length), in memory exactly as in a file.
+   [pad] = the dataset went through a file (dcmwrite + dcmread): the bytes are unchanged, but the
+   LUTData of a one-entry table (2 bytes) is handed back by pydicom as a bare int (VR US) *)
 Definition mk_lut (first : Z) (data : list Z) (bits : Z) (expl : option string) (pad : bool)
   : res lutds :=
   if first <? 0 then Err "ValueError"
@@ -109,21 +114,20 @@ Definition mk_lut (first : Z) (data : list Z) (bits : Z) (expl : option string) 
     else
       let n' := if n =? 65536 then 0 else n in
       let bytes := if bits =? 8 then data else enc16 data in
-      let bytes' := if pad && (zlen bytes mod 2 =? 1) then bytes ++ [0] else bytes in
-      (* pydicom resolves LUTData of a ONE-entry table to VR US: a single byte cannot be packed
-         (the harness reports this as RuntimeError); two bytes come back as a python int, which
-         lut_data turns into a one-entry array *)
-      if pad && (n =? 1) && (bits =? 8) then Err "RuntimeError" else
-      Ok (LutDS n' first bits bytes' expl).
+      let bytes' := if zlen bytes mod 2 =? 1 then bytes ++ [0] else bytes in
+      Ok (LutDS n' first bits bytes' expl (pad && (n =? 1))).
 
 (* LUT.number_of_entries *)
 Definition lut_entries (l : lutds) : Z := if ld_n l =? 0 then 65536 else ld_n l.
 
-(* LUT.lut_data *)
+(* LUT.lut_data.  The pad test `bits == 8 and length % 2 == 1 and len(data) == length + 1`
+   evaluates len(data): TypeError when LUTData is a bare int *)
 Definition lut_data (l : lutds) : res (list Z) :=
   if negb ((ld_bits l =? 8) || (ld_bits l =? 16)) then Err "RuntimeError"
   else
     let len := lut_entries l in
+    if (ld_bits l =? 8) && (len mod 2 =? 1) && ld_scalar l then Err "TypeError"
+    else
     let data := ld_bytes l in
     let data := if (ld_bits l =? 8) && (len mod 2 =? 1) && (zlen data =? len + 1)
                 then removelast data else data in
@@ -334,13 +338,15 @@ Record found := Found {
 Definition ds_invert (ds : dataset) : bool :=
   match d_pls ds with Some b => b | None => d_mono1 ds end.
 
-Definition discover (u : uses) (pres : bool) (ds : dataset) (rsel vsel : sel) (fi : Z)
+(* the discovery, given what the search over the levels returned for each kind of parameter
+   (image.py: the three `for ds, is_shared in datasets` loops) *)
+Definition discover_at (u : uses) (pres : bool) (ds : dataset) (rsel vsel : sel)
+           (o_rwvm : option (list rwvm)) (o_resc : option (Q * Q)) (o_win : option windows)
   : res found :=
-  bind (levels ds fi) (fun lvls =>
   let invert := pres && ds_invert ds in
   (* real world value map *)
   bind (if use_rwvm u then
-          match first_some lv_rwvm lvls with
+          match o_rwvm with
           | None => Ok None
           | Some rs => match select_rwvm rs rsel with
                        | None => Err "IndexError"
@@ -357,7 +363,7 @@ Definition discover (u : uses) (pres : bool) (ds : dataset) (rsel vsel : sel) (f
     let rescale := if look_mod then
                      match d_modlut ds with
                      | Some _ => None
-                     | None => first_some level_rescale lvls
+                     | None => o_resc
                      end
                    else None in
     if req_mod u && match modlut, rescale with None, None => true | _, _ => false end
@@ -383,7 +389,7 @@ Definition discover (u : uses) (pres : bool) (ds : dataset) (rsel vsel : sel) (f
                                | Some l => Ok (Some l, None, Linear)
                                end
                   | None =>
-                      match first_some lv_win lvls with
+                      match o_win with
                       | None => Ok (None, None, Linear)
                       | Some w =>
                           match select_window w vsel with
@@ -399,7 +405,13 @@ Definition discover (u : uses) (pres : bool) (ds : dataset) (rsel vsel : sel) (f
         if req_voi u && match voilut, win with None, None => true | _, _ => false end
         then Err "RuntimeError"
         else Ok (Found rw modlut rescale voilut win fn invert)
-      end))).
+      end)).
+
+Definition discover (u : uses) (pres : bool) (ds : dataset) (rsel vsel : sel) (fi : Z)
+  : res found :=
+  bind (levels ds fi) (fun lvls =>
+  discover_at u pres ds rsel vsel (first_some lv_rwvm lvls) (first_some level_rescale lvls)
+              (first_some lv_win lvls)).
 
 (* ------------------------------------------------------------------ *)
 (* 6. folding into one effective transform (image.py:714-843)          *)
@@ -597,6 +609,91 @@ Definition get_frame (ds : dataset) (fl : flags) (rsel vsel : sel) (ymin ymax : 
   | Some xs =>
       bind (combined ds fl rsel vsel ymin ymax odt fi) (fun er => apply_frame ymin ymax (d_in ds) odt er xs)
   end.
+
+(* ------------------------------------------------------------------ *)
+(* 7b. several frames in one call: get_frames, _get_pixels_by_frame     *)
+(*     (get_volume, get_total_pixel_matrix), get_volume_from_series     *)
+(* ------------------------------------------------------------------ *)
+(* the datasets searched for frame fi with their is_shared flag *)
+Definition tagged_levels (ds : dataset) (fi : Z) : res (list (level * bool)) :=
+  let sh := match d_shared ds with Some l => [(l, true)] | None => [] end in
+  match d_perframe ds with
+  | None => Ok ((d_root ds, true) :: sh)
+  | Some pf => match (if 0 <=? fi then nth_error pf (Z.to_nat fi) else None) with
+               | Some l => Ok ((d_root ds, true) :: (l, false) :: sh)
+               | None => Err "IndexError"
+               end
+  end.
+(* is_shared of the level at which a search stops (nothing found: nothing changes the flag) *)
+Definition found_shared {B} (f : level -> option B) (l : list (level * bool)) : bool :=
+  fold_right (fun a acc => match f (fst a) with Some _ => snd a | None => acc end) true l.
+
+(* _CombinedPixelTransform.applies_to_all_frames of a transform that was built without error
+   for frame fi (ICC / optical paths are not modelled) *)
+Definition applies_all (u : uses) (ds : dataset) (vsel : sel) (fi : Z) : bool :=
+  match tagged_levels ds fi with
+  | Err _ => true
+  | Ok tl =>
+      let has_rwvm := use_rwvm u &&
+                      match first_some lv_rwvm (map fst tl) with Some _ => true | None => false end in
+      let a1 := if use_rwvm u then found_shared lv_rwvm tl else true in
+      let a2 := if negb has_rwvm && use_mod u then
+                  match d_modlut ds with Some _ => true | None => found_shared level_rescale tl end
+                else true in
+      let a3 := if negb has_rwvm && use_voi u then
+                  match vsel with
+                  | SUserLut _ => true
+                  | SUserWin _ _ _ => true
+                  | _ => match d_voiluts ds with Some _ => true | None => found_shared lv_win tl end
+                  end
+                else true in
+      a1 && a2 && a3
+  end.
+
+Fixpoint mapM {A B} (f : A -> res B) (l : list A) : res (list B) :=
+  match l with
+  | [] => Ok []
+  | a :: t => bind (f a) (fun b => bind (mapM f t) (fun bs => Ok (b :: bs)))
+  end.
+
+Definition frame_at (frames : list (list Z)) (fi : Z) : res (list Z) :=
+  match (if 0 <=? fi then nth_error frames (Z.to_nat fi) else None) with
+  | Some xs => Ok xs
+  | None => Err "IndexError"
+  end.
+
+(* the loop shared by get_frames and _get_pixels_by_frame: one transform is built for frame
+   [first]; it is reused for every requested frame iff it applies to all frames, otherwise a
+   new transform is built per frame *)
+Definition frames_with (ds : dataset) (fl : flags) (rsel vsel : sel) (ymin ymax : Q) (odt : dtype)
+           (frames : list (list Z)) (first : Z) (fis : list Z) : res (list (list Q)) :=
+  bind (combined ds fl rsel vsel ymin ymax odt first) (fun er0 =>
+  bind (gate fl (d_ctype ds)) (fun u =>
+  let all := applies_all u ds vsel first in
+  mapM (fun fi =>
+          bind (frame_at frames fi) (fun xs =>
+          bind (if all then Ok er0 else combined ds fl rsel vsel ymin ymax odt fi) (fun er =>
+          apply_frame ymin ymax (d_in ds) odt er xs))) fis)).
+
+(* Image.get_frames(frame indices): the shared transform is built from the FIRST requested frame *)
+Definition get_frames (ds : dataset) (fl : flags) (rsel vsel : sel) (ymin ymax : Q) (odt : dtype)
+           (frames : list (list Z)) (fis : list Z) : res (list (list Q)) :=
+  match fis with
+  | [] => bind (combined ds fl rsel vsel ymin ymax odt 0) (fun _ => Err "ValueError")  (* np.stack([]) *)
+  | f0 :: _ => bind (frame_at frames f0) (fun _ => frames_with ds fl rsel vsel ymin ymax odt frames f0 fis)
+  end.
+
+(* Image._get_pixels_by_frame (get_volume of a multi-frame image, get_total_pixel_matrix): the
+   shared transform is built with the default frame index 0; [fis] = the frames in the order
+   in which the index iterator yields them *)
+Definition get_pixels_by_frame (ds : dataset) (fl : flags) (rsel vsel : sel) (ymin ymax : Q)
+           (odt : dtype) (frames : list (list Z)) (fis : list Z) : res (list (list Q)) :=
+  frames_with ds fl rsel vsel ymin ymax odt frames 0 fis.
+
+(* get_volume_from_series: one single-frame dataset per slice, a new transform for each *)
+Definition get_series (fl : flags) (rsel vsel : sel) (ymin ymax : Q) (odt : dtype)
+           (slices : list (dataset * list Z)) : res (list (list Q)) :=
+  mapM (fun s => get_frame (fst s) fl rsel vsel ymin ymax odt [snd s] 0) slices.
 
 (* ------------------------------------------------------------------ *)
 (* 8. the standard's pipeline, stage by stage (the specification)      *)
@@ -808,3 +905,19 @@ Definition run_window (tab : list (Q * Q)) fn c w ymin ymax invert xs : val :=
   else vq_list (map (fun x => window (exp_table tab) fn c w ymin ymax invert x) xs).
 Definition run_gate fl ct : val :=
   vres (fun _ => VS "ok") (gate fl ct).
+
+(* several frames in one call *)
+Definition vq_list2 (l : list (list Q)) : val := VL (map vq_list l).
+Definition run_get_frames (tab : list (Q * Q)) ds fl rsel vsel ymin ymax odt frames fis : val :=
+  vres vq_list2 (get_frames (exp_table tab) ds fl rsel vsel ymin ymax odt frames fis).
+Definition run_pixels_by_frame (tab : list (Q * Q)) ds fl rsel vsel ymin ymax odt frames fis : val :=
+  vres vq_list2 (get_pixels_by_frame (exp_table tab) ds fl rsel vsel ymin ymax odt frames fis).
+Definition run_series (tab : list (Q * Q)) fl rsel vsel ymin ymax odt slices : val :=
+  vres vq_list2 (get_series (exp_table tab) fl rsel vsel ymin ymax odt slices).
+Definition vstatus {A} (r : res A) : val := vres (fun _ => VS "ok") r.
+Definition run_get_frames_status (tab : list (Q * Q)) ds fl rsel vsel ymin ymax odt frames fis : val :=
+  vstatus (get_frames (exp_table tab) ds fl rsel vsel ymin ymax odt frames fis).
+Definition run_pixels_by_frame_status (tab : list (Q * Q)) ds fl rsel vsel ymin ymax odt frames fis : val :=
+  vstatus (get_pixels_by_frame (exp_table tab) ds fl rsel vsel ymin ymax odt frames fis).
+Definition run_series_status (tab : list (Q * Q)) fl rsel vsel ymin ymax odt slices : val :=
+  vstatus (get_series (exp_table tab) fl rsel vsel ymin ymax odt slices).
